@@ -527,14 +527,16 @@ func parseContractFile(path string, pkgPath string) (*ContractFile, error) {
 		case kw == "fieldfunc":
 			// fieldfunc <Type>.<field> hashconcat : calls through this func-typed field are modelled as
 			// hash32 of the concatenation of their byte-slice arguments (an assumption about the value stored there).
+			// fieldfunc <Type>.<field> assigns <type-level designators>: calls through the field are assumed to
+			// modify nothing but the named heaps (heap(T), elems(T), mapof(T), big, ghost(...), ghostmap(...), nothing)
 			fs := strings.Fields(rest)
-			if len(fs) != 2 || fs[1] != "hashconcat" || !strings.Contains(fs[0], ".") {
+			if len(fs) < 2 || (fs[1] != "hashconcat" && fs[1] != "assigns") || !strings.Contains(fs[0], ".") {
 				return nil, fmt.Errorf("%s:%d: bad fieldfunc %q", path, rl.line, rest)
 			}
 			if cf.FieldFuncs == nil {
 				cf.FieldFuncs = map[string]string{}
 			}
-			cf.FieldFuncs[pkgPath+"."+fs[0]] = fs[1]
+			cf.FieldFuncs[pkgPath+"."+fs[0]] = strings.TrimSpace(strings.TrimPrefix(strings.TrimSpace(rest), fs[0]))
 			cur, curLemma, curBinding = nil, nil, nil
 		case kw == "global-inv":
 			c, err := mk(rest, rl.line)
